@@ -241,7 +241,14 @@ func (e *Env) Eval(c CExpr) TVal {
 		if c.Forall {
 			q = "forall"
 		}
-		return mathBool(fmt.Sprintf("(%s ((%s Int)) %s)", q, name, body))
+		term := fmt.Sprintf("(%s ((%s Int)) %s)", q, name, body)
+		if c.Forall && e.qdepth == 0 && e.x != nil && e.x.ctx.inQuant == 0 {
+			// name the formula and help the solver instantiate it (see registerQuant)
+			qn := e.x.ctx.Define("Q", SBool, term)
+			e.x.registerQuant(qn, name, body)
+			return mathBool(qn)
+		}
+		return mathBool(term)
 	case *CBinary:
 		return e.evalBinary(c)
 	case *CSel:
